@@ -80,7 +80,13 @@ fn rand_chars(r: &mut Rng, len: usize) -> Vec<char> {
 
 pub fn gen_text(r: &mut Rng, max_len: usize) -> String {
     let n = 1 + r.below(max_len);
-    (0..n).map(|_| ALPHABET[r.below(ALPHABET.len())]).collect()
+    let mut t: String = (0..n).map(|_| ALPHABET[r.below(ALPHABET.len())]).collect();
+    // now and then a leading byte order mark (an ordinary character for the tokenizer; "helpful" special handling
+    // of it desynchronises text and position maps)
+    if r.below(8) == 0 {
+        t.insert(0, '\u{feff}');
+    }
+    t
 }
 
 pub fn gen_model(r: &mut Rng, with_tags: bool) -> ModelData {
